@@ -320,9 +320,8 @@ def direct_oracles(ctx, case, db, stats):
         # one document holding the number count_documents gives; none over no documents
         n_docs = coll.count_documents({})
         want = [{opts: n_docs}] if n_docs else []
-    elif op == '$project' and plain_flags(opts) and not (
-            opts.get('_id', 0) and any(not v for k, v in opts.items() if k != '_id')):
-        # ({field: 0, _id: 1} is the listed finding `projectidexcl`)
+    elif op == '$project' and plain_flags(opts):
+        # (an exclusion may keep `_id` explicitly: {field: 0, _id: 1}, as the find projection)
         name = 'project=find projection'
         got = agg(coll, [{'$project': opts}])
         want = attempt(lambda: list(coll.find({}, copy.deepcopy(opts))))
